@@ -9,6 +9,7 @@ require (
 	github.com/prometheus/client_model v0.6.1
 	github.com/relex/gotils v1.1.1
 	github.com/relex/slog-agent v0.0.0
+	gopkg.in/yaml.v3 v3.0.1
 	pgregory.net/rapid v1.3.0
 )
 
@@ -32,7 +33,6 @@ require (
 	golang.org/x/sys v0.21.0 // indirect
 	golang.org/x/term v0.21.0 // indirect
 	google.golang.org/protobuf v1.34.2 // indirect
-	gopkg.in/yaml.v3 v3.0.1 // indirect
 )
 
 replace github.com/relex/slog-agent => /repo
